@@ -284,6 +284,41 @@ def doPMulDiv (l : Line) : Option String := do
     let outs := (List.range bufs.length).map fun k => showCList ((List.range (len k)).map (m' k))
     some ("ok bufs=" ++ "|".intercalate outs)
 
+/-- `pelemop op=<Op> alias=0|1 c=C x=p0|p1|… y=q0|q1|…` : the statement-level model of the
+operator on a PRODUCT-space element (`Op.execP`): self = leaf buffers 0..k-1, other = k..2k-1
+(or self's when aliased), fresh parts = 2k..3k-1 filled with junk 77; every leaf runs the
+extracted tensor `_lincomb` at its own size. Answers result, self and other parts afterwards. -/
+def doPElemOp (l : Line) : Option String := do
+  let op ← l.get? "op" >>= parseOp
+  let alias ← l.bool? "alias"
+  let c := (l.crat? "c").getD 0
+  let rawx ← l.get? "x"
+  let xp ← (rawx.splitOn "|").mapM parseCList
+  let k := xp.length
+  let yp ← if alias then some xp else (l.get? "y") >>= fun r => (r.splitOn "|").mapM parseCList
+  if yp.length ≠ k then none
+  let junk := xp.map fun q => List.replicate q.length (⟨77, 0⟩ : CRat)
+  let bufs := xp ++ yp ++ junk
+  let m := memOf bufs
+  let len (b : Nat) := (bufs.getD b []).length
+  let xs := List.range k
+  let ys := if alias then xs else xs.map (· + k)
+  let ts := xs.map (· + 2 * k)
+  let zeroIn (b : Nat) : Bool := (List.range (len b)).any fun i => m b i = 0
+  let divisorZeroEntry : Bool :=
+    match op with
+    | .divE | .idivE => ys.any zeroIn
+    | .rdivS | .rdivE => xs.any zeroIn
+    | _ => false
+  if divisorZeroEntry then some "undef:div0entry" else
+  let lc : LC CRat := fun A a b m => tensorLC (len A.out) false A a b m
+  match op.execP lc xs ys ts c m with
+  | none => some "raises"
+  | some (m', r) =>
+    let dump (b : Nat) := showCList ((List.range (len b)).map (m' b))
+    let dumps (bs : List Nat) := "|".intercalate (bs.map dump)
+    some s!"ok inplace={if r == xs then 1 else 0} res={dumps r} x={dumps xs} y={dumps ys}"
+
 def handle (l : Line) : Option String :=
   match l.op with
   | "lincomb" => doLincomb l
@@ -295,6 +330,7 @@ def handle (l : Line) : Option String :=
   | "bcast" => doBcast l
   | "bcasto" => doBcastOut l
   | "pmuldiv" => doPMulDiv l
+  | "pelemop" => doPElemOp l
   | "leaves" => doLeaves l
   | _ => none
 
